@@ -213,6 +213,179 @@ def text_reference(text, enc, errs, nl):
     return data, back
 
 
+# ------------------------------------------------------------------------------------------
+# Zero-size requests on the read paths.  A record parser (length-prefixed records, some of
+# them empty) and a sweep of read sizes that includes 0 (ending in read(-1) / read(None) /
+# read()), readinto with an empty buffer and readline(0), on open('rb') (default, unbuffered,
+# buffered) and openbin() handles of every backend, read-mode archive members included.
+# Oracle: the property itself (the concatenation is the stored data; a zero-size request
+# returns nothing and leaves the position alone) and io.BytesIO for every single call.
+
+ZERO_HANDLES = [
+    ("open('rb')", lambda fsx, p: fsx.open(p, "rb")),
+    ("open('rb',buffering=0)", lambda fsx, p: fsx.open(p, "rb", buffering=0)),
+    ("open('rb',buffering=16)", lambda fsx, p: fsx.open(p, "rb", buffering=16)),
+    ("openbin()", lambda fsx, p: fsx.openbin(p)),
+    ("openbin('r',buffering=0)", lambda fsx, p: fsx.openbin(p, "r", buffering=0)),
+]
+
+
+class _ReadArchive(B.Backend):
+    """Read-mode ZipFS / TarFS over an archive written through the write-mode filesystem."""
+
+    def __init__(self, writer):
+        self.writer = writer
+        self.name = {"WriteZipFS(before close)": "ReadZipFS", "WriteTarFS(before close)": "ReadTarFS"}[writer.name]
+
+    def make(self):
+        self.w = self.writer()
+        self.fs = self.w.make()
+        return self.fs
+
+    def reopen(self):
+        from fs.zipfs import ZipFS
+        from fs.tarfs import TarFS
+        self.fs.close()
+        self.w.target.seek(0)
+        self.fs = (ZipFS if self.name == "ReadZipFS" else TarFS)(self.w.target)
+        return self.fs
+
+
+def record_cases(rnd, thorough):
+    """(header width, records): length-prefixed records; every case has empty records, one of
+    them first or last, next to records longer than the io buffer sizes."""
+    import struct
+    cases = []
+    for width, fmt in ((1, ">B"), (2, ">H"), (4, ">I")):
+        for _ in range(3 if thorough else 1):
+            lens = [rnd.choice([0, 0, 1, 2, 5, 17, 200, 255]) for _k in range(rnd.randint(3, 9))]
+            if width > 1:
+                lens[rnd.randrange(len(lens))] = rnd.choice([600, 4096, 8193, 20000])
+            lens.insert(rnd.choice([0, len(lens)]), 0)
+            lens.insert(rnd.randrange(len(lens) + 1), 0)
+            recs = [bytes(bytearray(rnd.randrange(256) for _k in range(n))) for n in lens]
+            data = b"".join(struct.pack(fmt, len(r)) + r for r in recs)
+            cases.append((width, fmt, recs, data))
+    return cases
+
+
+def parse_records(f, width, fmt):
+    import struct
+    out = []
+    while True:
+        head = f.read(width)
+        if not head:
+            return out
+        if len(head) != width:
+            return out + [("truncated header", len(head))]
+        (n,) = struct.unpack(fmt, head)
+        body = f.read(n)
+        out.append(body)
+        if len(body) != n:
+            return out + [("short record", n, len(body))]
+
+
+def size_plans(rnd, length, thorough):
+    """Sequences of requests with zero sizes at the start, in the middle, repeated, and at EOF;
+    the last one reads the rest (read(-1) / read(None) / read()) and is followed by zero-size
+    requests at EOF."""
+    plans = []
+    for end in (("read", -1), ("read", None), ("read",)):
+        for _ in range(3 if thorough else 1):
+            ops = []
+            for _k in range(rnd.randint(6, 14)):
+                r = rnd.random()
+                if r < 0.3:
+                    ops.append(rnd.choice([("read", 0), ("readinto", 0), ("readline", 0)]))
+                elif r < 0.8:
+                    ops.append(("read", rnd.choice([1, 2, 3, 7, 16, 17, 64, max(1, length // 3)])))
+                elif r < 0.9:
+                    ops.append(("readinto", rnd.choice([1, 5, 16, 33])))
+                else:
+                    ops.append(("readline",))
+            ops.insert(0, rnd.choice([("read", 0), ("readinto", 0)]))
+            ops += [end, ("read", 0), ("readinto", 0), ("read", 1)]
+            plans.append(ops)
+    return plans
+
+
+def run_plan(f, ops):
+    """[(returned bytes, position after)] ; readinto reports the bytes it filled in."""
+    out = []
+    for op in ops:
+        try:
+            if op[0] == "read":
+                r = f.read(*op[1:])
+            elif op[0] == "readline":
+                r = f.readline(*op[1:])
+            else:
+                buf = bytearray(b"\xaa" * op[1])
+                n = f.readinto(buf)
+                r = ("readinto", n, bytes(buf))
+            r = bytes(r) if isinstance(r, (bytes, bytearray)) else r
+            out.append((r, f.tell()))
+        except Exception as e:  # noqa
+            out.append(("raises " + type(e).__name__ + ": " + str(e)[:80], None))
+            break
+    return out
+
+
+def zero_read_block(rnd, thorough, bad, nontrivial):
+    backs = [B.Mem, B.OS, B.Temp, B.SubMem, B.SubOS, B.SubSub, B.Wrap, B.WrapOS, B.MountSub, B.MultiOne, B.ZipW, B.TarW,
+             lambda: _ReadArchive(B.ZipW), lambda: _ReadArchive(B.TarW)]
+    recs = record_cases(rnd, thorough)
+    flat = [b"", b"x", b"ab\ncd\n\nef", bytes(bytearray(range(256))) * 40]
+    n = zero = 0
+    for bc in backs:
+        b = bc()
+        try:
+            fsx = b.make()
+            for i, (_w, _f, _r, data) in enumerate(recs):
+                fsx.writebytes("rec%d" % i, data)
+            for i, data in enumerate(flat):
+                fsx.writebytes("flat%d" % i, data)
+            if isinstance(b, _ReadArchive):
+                fsx = b.reopen()
+            for hname, opener in ZERO_HANDLES:
+                ctx = dict(backend=b.name, handle=hname)
+                for i, (width, fmt, records, data) in enumerate(recs):
+                    n += 1
+                    try:
+                        with opener(fsx, "rec%d" % i) as f:
+                            got = parse_records(f, width, fmt)
+                    except Exception as e:  # noqa
+                        got = "raises %s: %s" % (type(e).__name__, str(e)[:120])
+                    nontrivial.add((b.name, hname, "records", width, len(records)))
+                    zero += sum(1 for r in records if not r)
+                    if got != records:
+                        bad.append(("record parser (read(width) / read(length), empty records included) did not get the "
+                                    "stored records back", dict(ctx, header_width=width, lengths=[len(r) for r in records]),
+                                    repr([len(r) if isinstance(r, bytes) else r for r in got]
+                                         if isinstance(got, list) else got)[:200],
+                                    repr([len(r) for r in records])[:200]))
+                for i, data in enumerate(flat):
+                    for ops in size_plans(rnd, len(data), thorough):
+                        n += 1
+                        exp = run_plan(io.BytesIO(data), ops)
+                        try:
+                            with opener(fsx, "flat%d" % i) as f:
+                                got = run_plan(f, ops)
+                        except Exception as e:  # noqa
+                            got = "raises %s: %s" % (type(e).__name__, str(e)[:120])
+                        nontrivial.add((b.name, hname, "sizes", len(data), ops[-4]))
+                        zero += sum(1 for op in ops if len(op) > 1 and op[1] == 0)
+                        if got != exp:
+                            k = next((j for j in range(min(len(got), len(exp))) if got[j] != exp[j]), min(len(got), len(exp))) \
+                                if isinstance(got, list) else 0
+                            bad.append(("read sizes incl. zero: a request returned other data / position than io.BytesIO",
+                                        dict(ctx, length=len(data), requests=[list(o) for o in ops], first_difference=k),
+                                        repr(got[k] if isinstance(got, list) and k < len(got) else got)[:160],
+                                        repr(exp[k] if k < len(exp) else None)[:160]))
+        finally:
+            b.close()
+    return n, zero
+
+
 def run(report):
     import fs.tools
     proof = common.preflight(report)
@@ -276,6 +449,9 @@ def run(report):
                                                                    chunk=chunk), repr(got)[:120], repr(data)[:120]))
         finally:
             b.close()
+    # zero-size requests (record parser, size sweeps) on every kind of read handle
+    n_zero_seq, n_zero_req = zero_read_block(rnd, thorough, bad, nontrivial)
+    total += n_zero_seq
     # archive write -> read back
     for mk, rd in ((B.ZipW, "zip"), (B.TarW, "tar")):
         b = mk()
@@ -408,6 +584,12 @@ def run(report):
                     "x 8 texts vs io.TextIOWrapper(io.BytesIO); make_stream: 24 modes x 3 bufferings vs the model; "
                     "non-trivial = distinct (backend, write path, read path, length, chunk) / text settings / chunk lists",
                samples=[dict(data=list(lc[0][0]), kind=lc[0][1], size=lc[0][2], oracle=lc[0][3], chunks=impl[0])],
+               zero_size_read_sequences=n_zero_seq, zero_size_requests=n_zero_req,
+               zero_size_rule="14 backends (incl. read-mode ZipFS/TarFS members) x {open('rb'), open('rb',0), "
+                              "open('rb',16), openbin(), openbin('r',0)} x (length-prefixed record parser with "
+                              "header widths 1/2/4 and empty records + size sweeps with read(0) / readinto(empty) / "
+                              "readline(0) at start, middle and EOF, ending in read(-1) / read(None) / read()); "
+                              "every call compared with io.BytesIO (data and position)",
                loop_cases=len(lc), text_cases=tcases, disagreements_checked=len(bad), vm_compute_crosschecked=n_vm,
                traces_validated_against_impl=total - len(bad))
     return report.finish(proof, cov, assumptions=[
